@@ -481,7 +481,7 @@ theorem items_wf (rp : RootParams) (dp dc : Str) (lvl : Nat) (hc : 1 < dc.length
     · split at h
       · simp only [List.mem_singleton] at h
         subst h
-        exact ⟨⟨hg.1.2.2, childCanon_long dc de.name hc, base_le_child dc de.name rp.base hb⟩,
+        exact ⟨⟨hg.1.2.2, childCanon_long dc de.name hc, base_le_child dc de.name rp.base hg.1.1 hc hb⟩,
           depth_child dc de.name rp.base hg.1.1 hc hb⟩
       · simp at h
     · exact items_wf rp dp dc lvl hc hb ns hg.2 x h
